@@ -74,6 +74,11 @@ CLAIMED = {
          "The grid {no endpoints, all unhealthy, unknown model, every endpoint refusing / resetting / closing before headers, backend 400..503 x {OpenAI error JSON, other JSON, HTML, empty}, 2xx with malformed body} x {proxy, provider, Anthropic translated, Anthropic passthrough} x stream flag x engine x endpoint count is enumerated completely through the full stack and rapid adds request texts and odd error bodies: no 2xx and no fabricated completion when nobody answered, non-empty error body, completion within 10 s while every timeout is >= 60 s, Anthropic error objects (application/json) on the Anthropic routes for both stream flags, backend statuses kept and bodies relayed.",
          "Promptness is a one-sided wall-clock bound with a 6x margin; a 2xx backend answer with a malformed body is only asserted on the non-streaming translated path.",
          "DESIGN.md §3 C05"),
+ "C17": ("exploration",
+         "rapid-generated client behaviours against freshly booted rate-limited stacks; token-bucket upper bound oracle over an over-estimated window; size cases around the limits",
+         "Each rate case boots the production assembly with fast limits (300..1200/min, burst 1..10, optional global limit) and drives 1..8 concurrent senders (own connections, keep-alive on/off, proxy/provider/Anthropic/mixed routes, interleaved health requests); requests that reach the recording backend are counted against burst + rate x t + 1 over the window [first send, last receive], every refusal must be 429. Size cases send bodies at limit-1, limit, limit+1 and 5x limit with Content-Length or chunked framing against max_body_size and the Anthropic max_message_size: nothing above the limit reaches the backend, no 2xx, 413 on the Anthropic route.",
+         "All senders share 127.0.0.1; the window is over-estimated so load can only loosen the bound (no false alarm), at the price of missing marginal excess.",
+         "DESIGN.md §3 C17"),
  "C06": ("exploration",
          "rapid-generated endpoint lists against a reference selector model; concurrent fairness counting",
          "Selectors obtained from balancer.Factory over a real stats collector are judged against reference rules on generated lists (n<=5, all statuses, priorities, gauge vectors) sequentially and from up to 32 goroutines: member-or-error, top-tier only and every tier member reached, exact k-per-member round-robin fairness over any window, minimal gauge for least-connections.",
